@@ -6,7 +6,7 @@ struct ciq { uint32_t first, last; };
 struct opt { bool has; uint32_t value; };
 struct op_state_t {
   size_t num_worker_threads;
-  struct ciq queues[W_MAX];
+  struct ciq the_queue;                /* queues[]: ONE cell plus the ghost index it was selected with (bounds asserted in vx_queue) */
   Shape shape;
   tasks_remaining_t tasks_remaining;   /* std::atomic<...> */
   bool exception_thrown;               /* std::atomic<bool> */
@@ -105,7 +105,8 @@ enum { HINT_NONE = 0, HINT_THREAD = 1, HINT_NUMA = 2 };
 static Shape g_task_n; static chunk_t g_task_cs; static uint32_t g_task_w; static struct hint g_task_hint; static bool g_finish_w_ok;
 static void task_finish(struct task_fn *t) { VX_ASSERT(t->op_state == vx_op, "task bound to this operation state"); g_finish++; }
 static bool ciq_empty(struct ciq *q) { return q->first >= q->last; }
-static struct ciq *vx_queue(struct op_state_t *op, size_t i) { VX_ASSERT(i < op->num_worker_threads, "queues[] index within num_worker_threads"); return &op->queues[i]; }
+static size_t g_qidx; static long g_qsel;
+static struct ciq *vx_queue(struct op_state_t *op, size_t i) { VX_ASSERT(i < op->num_worker_threads, "queues[] index within num_worker_threads"); g_qidx = i; if (g_qsel < 2) g_qsel++; return &op->the_queue; }
 static struct hint get_hint(struct op_state_t *op) { struct hint h; h.mode = op->scheduler_hint_mode; h.thread = op->scheduler_hint_thread; return h; }
 static struct hint hint_default(void) { struct hint h; h.mode = HINT_NONE; h.thread = (uint32_t) -1; return h; }
 static struct hint hint_make(int mode, uint32_t th) { struct hint h; h.mode = mode; h.thread = th; return h; }
@@ -120,14 +121,14 @@ static void register_work(struct init_data d)
 }
 //@FUNC
 void do_work_task(struct bulk_receiver *self, Shape n, chunk_t chunk_size, uint32_t worker_thread)
-__CPROVER_requires(self->op_state == vx_op && worker_thread < vx_op->num_worker_threads && vx_op->num_worker_threads <= W_MAX && g_finish == 0 && g_spawned == 0)
+__CPROVER_requires(self->op_state == vx_op && worker_thread < vx_op->num_worker_threads && vx_op->num_worker_threads <= W_MAX && g_finish == 0 && g_spawned == 0 && g_qsel == 0)
 /* every worker's share is accounted for exactly once: an empty queue finishes without spawning, otherwise exactly one task is spawned */
 __CPROVER_ensures(g_finish + g_spawned == 1)
-__CPROVER_ensures((g_finish == 1) == (vx_op->queues[worker_thread].first >= vx_op->queues[worker_thread].last))
+__CPROVER_ensures(g_qsel >= 1 && g_qidx == worker_thread && (g_finish == 1) == (vx_op->the_queue.first >= vx_op->the_queue.last))
 /* the spawned task works on this worker's queue with the same n and chunk size, hinted to that worker unless the scheduler carries a hint */
 __CPROVER_ensures(g_spawned == 1 ==> (g_task_n == n && g_task_cs == chunk_size && g_task_w == worker_thread))
 __CPROVER_ensures(g_spawned == 1 ==> (vx_op->scheduler_hint_mode == HINT_NONE && vx_op->scheduler_hint_thread == (uint32_t) -1 ? (g_task_hint.mode == HINT_THREAD && g_task_hint.thread == worker_thread) : (g_task_hint.mode == vx_op->scheduler_hint_mode && g_task_hint.thread == vx_op->scheduler_hint_thread)))
-__CPROVER_assigns(g_finish, g_spawned, g_task_n, g_task_cs, g_task_w, g_task_hint)
+__CPROVER_assigns(g_finish, g_spawned, g_task_n, g_task_cs, g_task_w, g_task_hint, g_qidx, g_qsel)
 //@LIFT body
 #endif
 
@@ -233,7 +234,7 @@ void harness(void)
   op.scheduler_hint_mode = nondet_int(); op.scheduler_hint_thread = nondet_u32();
   uint32_t w = nondet_u32();
   VX_ASSUME(w < W_MAX);
-  op.queues[w].first = nondet_u32(); op.queues[w].last = nondet_u32();
+  op.the_queue.first = nondet_u32(); op.the_queue.last = nondet_u32(); g_qidx = 0; g_qsel = 0;
   do_work_task(&r, nondet_Shape(), (chunk_t) nondet_u64(), w);
   if (g_finish) VX_REACH("empty_queue_finishes"); else VX_REACH("task_spawned");
   if (g_spawned && g_task_hint.mode != HINT_THREAD) VX_REACH("scheduler_hint_kept");
